@@ -299,7 +299,7 @@ func (srv *Srv) createPost(req *SrvReq) {
 func (srv *Srv) read(req *SrvReq) {
 	tc := req.Tc
 	fid := req.Fid
-	if tc.Count+IOHDRSZ > req.Conn.Msize {
+	if tc.Count > req.Conn.Msize-IOHDRSZ {
 		req.RespondError(Etoolarge)
 		return
 	}
@@ -371,7 +371,7 @@ func (srv *Srv) write(req *SrvReq) {
 		return
 	}
 
-	if tc.Count+IOHDRSZ > req.Conn.Msize {
+	if tc.Count > req.Conn.Msize-IOHDRSZ {
 		req.RespondError(Etoolarge)
 		return
 	}
